@@ -421,8 +421,8 @@ static bool stall_is_stale(Ctx& c) {
       if (blk.is_finished()) continue;
       any_open = true;
       for (auto& p : c.peers) {
-        if (!usable(c, p.get())) continue;
-        bool honest = p->variant == 0 && !p->choking;
+        if (!usable(c, p.get()) || p->choking) continue;   // a peer that chokes us cannot be asked: not a candidate
+        bool honest = p->variant == 0;
         bool asked = false, stale = false;
         for (auto* t : *blk.queued()) if (t->peer_info() == p->info) asked = true;
         for (auto* t : *blk.transfers()) {
@@ -589,7 +589,16 @@ static std::string run_case(Session& S, const std::string& line) {
   std::string err;
   for (auto& p : c.peers) {
     std::string ip = "127.0." + std::to_string(1 + (g_case_no % 200)) + "." + std::to_string(2 + p->id);
-    if (!p->w.connect_to(S.listen_port(), ip.c_str(), 1 << 20, 1 << 20)) { err = "ERR:connect"; break; }
+    // Session::find_connection identifies a connection by its remote PORT only; peers bound to different loopback
+    // addresses can be given the same ephemeral port: reconnect until the port is unique among this case's peers.
+    bool okc = false;
+    for (int attempt = 0; attempt < 20 && !okc; attempt++) {
+      if (!p->w.connect_to(S.listen_port(), ip.c_str(), 1 << 20, 1 << 20)) break;
+      okc = true;
+      for (auto& o2 : c.peers) if (o2.get() != p.get() && o2->port != 0 && o2->port == p->w.local_port()) okc = false;
+      if (!okc) { p->w.close_all(); pump_all(c); }
+    }
+    if (!okc) { err = "ERR:connect"; break; }
     char idbuf[21];
     snprintf(idbuf, sizeof idbuf, "-LV0001-%06u%06u", g_case_no % 1000000, (unsigned)p->id);
     p->w.send_bytes(WirePeer::handshake(T->info_hash, std::string(idbuf, 20)) + WirePeer::bitfield(std::string(np, '1')));
